@@ -79,8 +79,11 @@ def run(tier, seed):
                 tag = f"{pkg}-{prof}"
                 casefile = os.path.join(work, f"case-{tag}.json")
                 oldcase = os.path.join(work, f"old-{tag}.json")
-                for path, s in ((casefile, seed), (oldcase, seed + 7919)):
-                    out = subprocess.run([binary, "c09-case", "--seed", str(s), "--profile", prof, "--pkg", pkg], stdout=subprocess.PIPE,
+                # the container that is at the destination before: same packaging, except for the one-file packaging, where it is a
+                # container of several files (a one-file creation has no business with the files next to its destination)
+                old_pkg = pkg if pkg != "onefile" else ("twofiles" if prof == PROFILES[0] else "noconcat")
+                for path, s, pk in ((casefile, seed, pkg), (oldcase, seed + 7919, old_pkg)):
+                    out = subprocess.run([binary, "c09-case", "--seed", str(s), "--profile", prof, "--pkg", pk], stdout=subprocess.PIPE,
                                          text=True, env=env()).stdout
                     with open(path, "w") as f:
                         f.write(out)
@@ -233,6 +236,15 @@ def run(tier, seed):
                     ok = False
                 if completed and job["variant"] in ("error", "transient", "eio-once", "eio-from") and state != "new-complete":
                     ok = False
+                lost = ins.get("old_entry_next_to_replaced_pack") or []
+                if state == "old" and job["pkg"] == "onefile" and lost:
+                    # the previous container's entry point is untouched but files it refers to were removed or replaced by a
+                    # creation that writes one file only: the previous container is not complete any more
+                    ok = False
+                    ins["why"] = f"the previous container lost {lost}"
+                    state = "old-incomplete"
+                if state == "old" and job["pkg"] == "onefile":
+                    rep.obs_inc("previous_multi_file_container_intact_after_failed_one_file_creation")
                 if not ok:
                     why = ins.get("why", "")
                     import re
